@@ -334,6 +334,9 @@ def _invalid(spec, ctx):
             'nan': good.mask(rng.random(good.shape) < 0.1),
             'one-nan': good.copy()}
     bads['one-nan'].iloc[int(rng.integers(30)), int(rng.integers(3))] = np.nan
+    bads['bool'] = pd.DataFrame(rng.random((30, 3)) < 0.5, columns=['a', 'b', 'c'])
+    bads['complex'] = pd.DataFrame(rng.normal(size=(30, 2)) + 1j * rng.normal(size=(30, 2)), columns=['a', 'b'])
+    bads['datetime'] = pd.DataFrame({'a': pd.date_range('2020-01-01', periods=30), 'b': rng.normal(size=30)})
     makers = {'GaussianMultivariate': lambda: GaussianMultivariate(),
               'VineCopula(center)': lambda: VineCopula('center'), 'VineCopula(regular)': lambda: VineCopula('regular')}
     for mname, make in makers.items():
@@ -379,6 +382,23 @@ def _get_instance(spec, ctx):
                 protos.append(('fitted-instance', m, cls, kw))
             except Exception:   # noqa: BLE001
                 pass
+    # options given positionally
+    for cls, args, expect in ((cu.TruncatedGaussian, (0.0, 10.0), {'min': 0.0, 'max': 10.0}),
+                              (cu.GaussianKDE, (25, None, 0.3), {'_sample_size': 25, 'bw_method': 0.3}),
+                              (cu.Univariate, ([cu.GaussianUnivariate, cu.UniformUnivariate],), {}),
+                              (VineCopula, ('regular',), {'vine_type': 'regular'})):
+        proto = cls(*copy.deepcopy(args))
+        where = {'form': 'positional-instance', 'cls': cls.__name__, 'args': repr(args)[:100]}
+        ok, inst = ctx.call(get_instance, proto)
+        if not ok:
+            ctx.violation('get_instance.contract', 'C19:get_instance-' + exc_mech(inst), dict(exc_detail(inst), **where))
+            continue
+        good = type(inst) is cls and inst is not proto and all(getattr(inst, k, '<missing>') == v for k, v in expect.items())
+        if cls is cu.Univariate:
+            good = good and [c.__name__ for c in inst.candidates] == ['GaussianUnivariate', 'UniformUnivariate'] \
+                and inst.candidates is not proto.candidates
+        ctx.check(good, 'get_instance.contract', 'C19:get_instance-not-a-fresh-equally-configured-object',
+                  lambda: dict(where, got={k: repr(getattr(inst, k, '<missing>'))[:40] for k in expect}))
     attr = {'bw_method': 'bw_method', 'sample_size': '_sample_size', 'weights': 'weights', 'minimum': 'min', 'maximum': 'max',
             'selection_sample_size': 'selection_sample_size', 'distribution': 'distribution', 'vine_type': 'vine_type'}
     for form, proto, cls, kw in protos:
